@@ -519,6 +519,19 @@ func TestRetryAfterSet(t *testing.T) {
 					hist = append(hist, fmt.Sprintf("set %s=%v", k, v))
 				}
 			}
+			if rapid.IntRange(0, 2).Draw(t, "otherapp") == 0 {
+				// another App of this process starts meanwhile, with other values under the very same keys: each App
+				// resolves placeholders in its own configuration
+				other := &LazyCfg{}
+				o := kit.RunApp(app.SetConfigLoader(loader.NewRawLoader([]byte("c16r:\n  port: 1\n  host: other.example.org\n  path: other/\n"))), app.SetComponents(other))
+				if !o.OK() {
+					t.Fatalf("C16: the other App failed to start: %v", o)
+				}
+				if _, err := o.App.GetComponentByName("lazy-cfg"); err != nil || other.Port != 1 || other.URL != "http://other.example.org:1/other/api" {
+					t.Fatalf("C16: the other App's component holds Port=%d URL=%q (err %v), its configuration gives 1 and http://other.example.org:1/other/api\nhistory %v", other.Port, other.URL, err, hist)
+				}
+				hist = append(hist, "other app started")
+			}
 			got, err := out.App.GetComponentByName("lazy-cfg")
 			hist = append(hist, fmt.Sprintf("lookup err=%v", err != nil))
 			_, hasPort := cfg["c16r.port"]
